@@ -230,9 +230,20 @@ fn gen_token(rng: &mut Rng) -> String {
 /// render a list of (name, args) in the token grammar; returns (bytes of the line incl. newline, expected groups)
 fn render_line(rng: &mut Rng, exts: &[(String, Vec<String>)], crlf: bool) -> Vec<u8> {
     let mut s = String::from("!> ");
+    // padding: extra spaces are allowed everywhere a space is — after the prefix, between tokens, before and after ` &> `
+    let pad = |rng: &mut Rng, s: &mut String| {
+        if rng.chance(1, 4) {
+            for _ in 0..rng.range(1, 2) {
+                s.push(' ');
+            }
+        }
+    };
+    pad(rng, &mut s);
     for (i, (name, args)) in exts.iter().enumerate() {
         if i > 0 {
+            pad(rng, &mut s);
             s.push_str(" &> ");
+            pad(rng, &mut s);
         }
         s.push_str(name);
         for a in args {
